@@ -425,12 +425,33 @@ class BreakFragments:
     model = None
 
 
+
+def _relabel_overlap(rng, f, xids):
+    """give the fresh forest ids that PARTLY clash with the current neuron's ids and otherwise sit just above its largest id
+    (A = 1..3, B = 2..5): the id remapping of stitch/combine must cope with its own fresh ids"""
+    n = len(f['ids'])
+    xs = sorted(int(v) for v in xids)
+    k = int(rng.integers(1, max(2, min(n, len(xs)) + 1)))
+    shared = [int(v) for v in rng.choice(xs, size=min(k, len(xs)), replace=False)]
+    top = max(xs) + 1
+    fresh = [top + j for j in range(n - len(shared))]
+    new = shared + fresh
+    new = [int(new[i]) for i in rng.permutation(len(new))]
+    m = dict(zip(f['ids'], new))
+    g = dict(f)
+    g['ids'] = [m[i] for i in f['ids']]
+    g['parents'] = [m[p] if p >= 0 else -1 for p in f['parents']]
+    return g
+
+
 @op('stitch', inplace_kw=False)
 class Stitch:
     """stitch the current neuron with a fresh random one (clashing ids likely)"""
     @staticmethod
     def gen(rng, x):
         f = F.gen_forest(rng, 1, 12, roots=1, labelling='seq' if rng.random() < 0.5 else 'sparse')
+        if rng.random() < 0.5:
+            f = _relabel_overlap(rng, f, ids_of(x))
         return dict(other=f, method=str(rng.choice(['NONE', 'LEAFS', 'ALL'])))
 
     @staticmethod
@@ -446,6 +467,8 @@ class Combine:
     @staticmethod
     def gen(rng, x):
         f = F.gen_forest(rng, 1, 12, labelling='seq' if rng.random() < 0.5 else 'sparse')
+        if rng.random() < 0.5:
+            f = _relabel_overlap(rng, f, ids_of(x))
         return dict(other=f)
 
     @staticmethod
